@@ -284,11 +284,42 @@ def lemmas():
     own = [st.name for st in (eq.body if eq is not None else []) if isinstance(st, (ast.FunctionDef, ast.AsyncFunctionDef)) and st.name in QUEUE_METHODS]
     bases = [getattr(b, "id", None) or getattr(getattr(b, "value", None), "id", None) for b in (eq.bases if eq is not None else [])]
     out.append(Obligation("lemma[EventQueue is SkipRepeatsQueue: it overrides none of the queue operations]", "lemma", [], z3.BoolVal(eq is not None and not own and bases == ["SkipRepeatsQueue"]), ",".join(own), "EventQueue"))
+    # the rely of the proof ("other threads only run _put/_get sections"), discharged as two frame lemmas over the source:
+    # (a) inside the class the last-item bookkeeping is written only by the three methods queue.Queue calls under its mutex
+    br = source.module(FILE)
+    srq = br.classes.get("SkipRepeatsQueue")
+    writers = set()
+    for st in (srq.body if srq is not None else []):
+        if isinstance(st, (ast.FunctionDef, ast.AsyncFunctionDef)):
+            for n in ast.walk(st):
+                tgts = n.targets if isinstance(n, ast.Assign) else [n.target] if isinstance(n, (ast.AugAssign, ast.AnnAssign)) else n.targets if isinstance(n, ast.Delete) else []
+                for t in tgts:
+                    for x in ast.walk(t):
+                        if isinstance(x, ast.Attribute) and x.attr == "_last_item":
+                            writers.add(st.name)
+    out.append(Obligation("lemma[frame: the last-item bookkeeping is written only inside the queue's own critical sections (_init, _put, _get) - a write anywhere else is not atomic with the enqueue / dequeue it belongs to]",
+                          "lemma", [], z3.BoolVal(srq is not None and writers <= {"_init", "_put", "_get"}), ",".join(sorted(writers - {"_init", "_put", "_get"})), "SkipRepeatsQueue"))
+    # (b) nothing outside bricks.py reaches into a queue's internals (its deque, mutex, conditions, task counter, last item):
+    # items enter and leave the observer's queue only through put / get, so the bookkeeping always matches the deque
+    import os
+    INTERNALS = {"queue", "mutex", "not_empty", "not_full", "all_tasks_done", "unfinished_tasks", "_last_item"}   # names queue.Queue / SkipRepeatsQueue use for their state
+    reach = []
+    root = os.path.join(source.SRC, "watchdog")
+    for d, _ds, fs in os.walk(root):
+        for f in sorted(fs):
+            rel = os.path.relpath(os.path.join(d, f), source.SRC)
+            if not f.endswith(".py") or rel == FILE:
+                continue
+            for n in ast.walk(source.module(rel).tree):
+                if isinstance(n, ast.Attribute) and n.attr in INTERNALS and not (isinstance(n.value, ast.Name) and n.value.id in ("queue",)):
+                    reach.append(f"{rel}:{n.lineno}:.{n.attr}")
+    out.append(Obligation("lemma[frame: no module outside bricks.py touches a queue's internals (deque, mutex, conditions, task counter, last item): entries are added and removed only by put / get]",
+                          "lemma", [], z3.BoolVal(not reach), "; ".join(reach[:5]), "EventQueue"))
     return out
 
 
 EXPECTED_CLAUSES = ["put.post[dropped only if equal to the item enqueued immediately before it", "put.post[the item itself is handed to Queue.put", "_put.post[I:last-item-is-the-last-enqueued-and-still-waiting]",
-                    "_get.post[FIFO", "_get.post[last item forgotten iff", "_init.post[nothing enqueued", "lemma[all five fields", "lemma[EventQueue is SkipRepeatsQueue"]
+                    "_get.post[FIFO", "_get.post[last item forgotten iff", "_init.post[nothing enqueued", "lemma[all five fields", "lemma[EventQueue is SkipRepeatsQueue", "lemma[frame: the last-item bookkeeping is written only", "lemma[frame: no module outside bricks.py"]
 CANARIES = [
     {"name": "_get never clears _last_item", "file": FILE, "fn": "SkipRepeatsQueue._get", "find": "        if item is self._last_item:\n            self._last_item = None\n", "replace": ""},
     {"name": "_put does not record _last_item", "file": FILE, "fn": "SkipRepeatsQueue._put", "find": "        self._last_item = item\n", "replace": "        pass\n"},
